@@ -382,6 +382,40 @@ def sp_enc_step(ex, e, st):
                   s.at(p) == nuc, vtx.at(p + 1) == acc.arr2[v][col], acc.arr2[v][col] >= 0)
 
 
+def sp_first(ex, e, st):
+    from pyvc.sym import PairSeq
+    v = ex.ev(e.args[0], st)
+    if not isinstance(v, PairSeq):
+        from pyvc.engine import Unsupported
+        raise Unsupported("first() of something that is not a list of pairs")
+    return v.a
+
+
+def sp_second(ex, e, st):
+    from pyvc.sym import PairSeq
+    v = ex.ev(e.args[0], st)
+    if not isinstance(v, PairSeq):
+        from pyvc.engine import Unsupported
+        raise Unsupported("second() of something that is not a list of pairs")
+    return v.b
+
+
+def sp_dec_step(ex, e, st):
+    """dec_step(acc, shuffles, dgp, ddp, vtx, s, p): character p of s is a live arc of vertex vtx[p]; dgp[p] is that vertex's out-degree and
+    ddp[p] the digit the arc stands for (0 at a vertex with a single arc); vtx[p+1] is where the arc leads."""
+    acc, shuf = _mat(ex.ev(e.args[0], st)), ex.ev(e.args[1], st)
+    dgp, ddp, vtx, s = [_seq(ex.ev(x, st)) for x in e.args[2:6]]
+    p = _int(ex.ev(e.args[6], st))
+    v = vtx.at(p)
+    d = row_deg(acc, v)
+    col = specz3.code_of(s.at(p))
+    digit = row_rank(acc, shuf, v, 3)
+    for c in (2, 1, 0):
+        digit = z3.If(col == c, row_rank(acc, shuf, v, c), digit)
+    return z3.And(0 <= v, v < acc.rows, col >= 0, acc.arr2[v][col] >= 0, vtx.at(p + 1) == acc.arr2[v][col],
+                  dgp.at(p) == d, ddp.at(p) == z3.If(d > 1, digit, iv(0)))
+
+
 def sp_wt(ex, e, st):
     dg = _seq(ex.ev(e.args[0], st))
     return specz3.wtf(dg.arr, add(dg.start, _int(ex.ev(e.args[1], st))), add(dg.start, _int(ex.ev(e.args[2], st))))
@@ -437,6 +471,37 @@ def sp_ipow_val(b, x):
     return specz3.ipow(iv(b), x)
 
 
+def sp_rwalkv(ex, e, st):
+    a = [ex.ev(x, st) for x in e.args]
+    return specz3.walkv(a[0], a[1], _int(a[2]), _int(a[3]), _int(a[4]))
+
+
+def sp_A2(ex, e, st):
+    return _mat(ex.ev(e.args[0], st)).arr2
+
+
+def sp_vt_matches(ex, e, st):
+    """vt_matches(check, s): check is the documented VT check of strand s (of length len(check) >= 1)."""
+    c, s = _seq(ex.ev(e.args[0], st)), _seq(ex.ev(e.args[1], st))
+    cs = codes_seq(ex, s)
+    cc = codes_seq(ex, c)
+    dna = c.forall(lambda v: z3.Or(v == 65, v == 67, v == 71, v == 84))
+    return z3.And(c.n >= 1, dna, specz3.code_of(c.at(0)) == specz3.ssum(cs.arr, iv(0), cs.start, add(cs.start, cs.n)) % 4,
+                  specz3.seq_pv(cc, iv(1), cc.n, 4) == specz3.asum(cs.arr, cs.start, cs.start, add(cs.start, cs.n - 1)) % sp_ipow_val(4, c.n - 1))
+
+
+def sp_rwt(ex, e, st):
+    return specz3.wtf(ex.ev(e.args[0], st), _int(ex.ev(e.args[1], st)), _int(ex.ev(e.args[2], st)))
+
+
+def sp_rlv(ex, e, st):
+    return specz3.lvf(ex.ev(e.args[0], st), ex.ev(e.args[1], st), _int(ex.ev(e.args[2], st)), _int(ex.ev(e.args[3], st)))
+
+
+def sp_rhv(ex, e, st):
+    return specz3.hvf(ex.ev(e.args[0], st), ex.ev(e.args[1], st), _int(ex.ev(e.args[2], st)), _int(ex.ev(e.args[3], st)))
+
+
 def sp_rsum(ex, e, st):
     """raw sum rsum(a, d, lo, hi) over an array value (lemma language)."""
     a = ex.ev(e.args[0], st)
@@ -454,6 +519,6 @@ def sp_accepts(ex, e, st):
 SPEC = {
     "forall": sp_forall, "exists": lambda ex, e, st: sp_forall(ex, e, st, exists=True), "implies": sp_implies, "old": sp_old,
     "digits": sp_digits, "val": sp_val, "dval": sp_dval, "val2": sp_val2, "canon": sp_canon, "ipow": sp_ipow, "dig": sp_dig,
-    "same": sp_same_seq, "upd": sp_upd, "accepts": sp_accepts, "here": sp_here, "deg": sp_deg, "arc_of_digit": sp_arc_of_digit, "digit_of_arc": sp_digit_of_arc, "is_accessor": sp_is_accessor,
-    "is_table": sp_is_table, "walkv": sp_walkv, "enc_step": sp_enc_step, "wt": sp_wt, "lv": sp_lv, "hv": sp_hv, "ascents": sp_ascents, "nsucc": sp_nsucc, "rsum": sp_rsum, "code": sp_code, "dnav": sp_dnav, "codes": sp_codes, "is_dna": sp_is_dna, "pv": sp_pv, "store": sp_store, "A": sp_A, "D": sp_D, "P": sp_P, "seq_is": sp_seq_is, "seq_is_cons": sp_seq_is_cons, "ite": sp_ite, "isnone": sp_isnone, "cnt": sp_cnt, "ssum": sp_ssum,
+    "same": sp_same_seq, "upd": sp_upd, "accepts": sp_accepts, "rwalkv": sp_rwalkv, "A2": sp_A2, "vt_matches": sp_vt_matches, "rwt": sp_rwt, "rlv": sp_rlv, "rhv": sp_rhv, "here": sp_here, "deg": sp_deg, "arc_of_digit": sp_arc_of_digit, "digit_of_arc": sp_digit_of_arc, "is_accessor": sp_is_accessor,
+    "is_table": sp_is_table, "first": sp_first, "second": sp_second, "dec_step": sp_dec_step, "walkv": sp_walkv, "enc_step": sp_enc_step, "wt": sp_wt, "lv": sp_lv, "hv": sp_hv, "ascents": sp_ascents, "nsucc": sp_nsucc, "rsum": sp_rsum, "code": sp_code, "dnav": sp_dnav, "codes": sp_codes, "is_dna": sp_is_dna, "pv": sp_pv, "store": sp_store, "A": sp_A, "D": sp_D, "P": sp_P, "seq_is": sp_seq_is, "seq_is_cons": sp_seq_is_cons, "ite": sp_ite, "isnone": sp_isnone, "cnt": sp_cnt, "ssum": sp_ssum,
 }
